@@ -138,8 +138,9 @@ static void IoReader(const Json& cmd, JsonOut& o) {
   std::vector<uint8_t> src = BytesOf(cmd.at("src"));
   o.kv_str("e", "IO");
   o.kv_str("side", "r");
-  o.kv_str("kind", kind == "fdburst" ? "fd" : kind);
+  o.kv_str("kind", (kind == "fdburst" || kind == "fdintr") ? "fd" : kind);
   if (kind == "fdburst") o.kv_bool("burst", true);
+  if (kind == "fdintr") o.kv_bool("intr", true);
   o.kv_bool("bounded", bounded);
   o.kv_bool("direct", direct);
   EmitSize(o, "limit", bounded ? limit : 0);
@@ -156,7 +157,7 @@ static void IoReader(const Json& cmd, JsonOut& o) {
     ReaderSpec spec; spec.kind = kind;
     DynReader inner(spec, src.data(), src.size());
     inner.SetFault(fk, fe);
-    const bool has_skip = kind != "fd" && kind != "fdburst";
+    const bool has_skip = kind != "fd" && kind != "fdburst" && kind != "fdintr";
     if (bounded) {
       nop::BoundedReader<DynReader> br(&inner, static_cast<size_t>(limit));
       if (has_skip) RunReaderOps<nop::BoundedReader<DynReader>, true, true>(br, &inner, ops, o);
@@ -207,8 +208,11 @@ static void IoReader(const Json& cmd, JsonOut& o) {
       nop::BoundedReader<nop::FdReader> b(&r, static_cast<size_t>(limit));
       RunReaderOps<decltype(b), false, false>(b, nullptr, ops, o);
     } else RunReaderOps<nop::FdReader, false, false>(r, nullptr, ops, o);
-  } else if (kind == "fd") {
-    nop::FdReader r(MakeReadFd(heap.get(), src.size()));
+  } else if (kind == "fd" || kind == "fdintr") {
+    // fdintr: the descriptor's system calls are interrupted (EINTR) and shortened
+    const int rfd = MakeReadFd(heap.get(), src.size());
+    FlakyFdScope flaky(rfd, kind == "fdintr");
+    nop::FdReader r(rfd);
     if (bounded) {
       // BoundedReader<FdReader>::Skip / ReadPadding do not compile (FdReader has no Skip): only the other calls
       nop::BoundedReader<nop::FdReader> b(&r, static_cast<size_t>(limit));
@@ -307,7 +311,8 @@ static void IoWriter(const Json& cmd, JsonOut& o) {
   const uint64_t cap = static_cast<uint64_t>(cmd.at("cap").num(64));
   o.kv_str("e", "IO");
   o.kv_str("side", "w");
-  o.kv_str("kind", kind);
+  o.kv_str("kind", kind == "fdintr" ? "fd" : kind);
+  if (kind == "fdintr") o.kv_bool("intr", true);
   o.kv_bool("bounded", bounded);
   o.kv_bool("direct", direct);
   EmitSize(o, "limit", bounded ? limit : 0);
@@ -402,10 +407,12 @@ static void IoWriter(const Json& cmd, JsonOut& o) {
     nop::FdWriter w(::open("/dev/full", O_WRONLY));
     if (bounded) { nop::BoundedWriter<nop::FdWriter> b(&w, static_cast<size_t>(limit)); WriterRunner<decltype(b), false, false, true>::run(b, nullptr, ops, o, false, cap); }
     else WriterRunner<nop::FdWriter, false, false, false>::run(w, nullptr, ops, o, false, cap);
-  } else if (kind == "fd") {
+  } else if (kind == "fd" || kind == "fdintr") {
     std::string path = TempPath("iowfd");
     {
-      nop::FdWriter w(::open(path.c_str(), O_WRONLY | O_CREAT | O_TRUNC, 0600));
+      const int wfd = ::open(path.c_str(), O_WRONLY | O_CREAT | O_TRUNC, 0600);
+      FlakyFdScope flaky(wfd, kind == "fdintr");
+      nop::FdWriter w(wfd);
       if (bounded) { nop::BoundedWriter<nop::FdWriter> b(&w, static_cast<size_t>(limit)); WriterRunner<decltype(b), false, false, true>::run(b, nullptr, ops, o, false, cap); }
       else WriterRunner<nop::FdWriter, false, false, false>::run(w, nullptr, ops, o, false, cap);
     }
